@@ -60,6 +60,8 @@ CONSTANTS
   PutPaths,     \* buckets in which Put/Delete are exercised
   BucketOps,    \* TRUE: CreateBucket/DeleteBucket are exercised
   PreBuckets,   \* buckets (depth 1) that exist, flushed, before the behaviour starts
+  PruneLast,    \* FALSE: Commit deletes the pruned block files first (original order);
+                \* TRUE: it writes the transaction through to leveldb and deletes them last
   PreCache      \* root keys put by one committed, NOT flushed transaction before the behaviour starts
 
 VARIABLES
@@ -319,7 +321,8 @@ PruneFiles ==
        ELSE LET n == CHOOSE j \in 1..(lst - first) :
                         /\ (total - j * Limit <= PruneTarget \/ j = lst - first)
                         /\ \A j2 \in 1..(j-1) : total - j2 * Limit > PruneTarget
-            IN first .. (first + n - 1)
+            IN \* PruneLast: never the write cursor's file or a later one
+               {f \in first .. (first + n - 1) : ~PruneLast \/ f < wc.f}
 
 SortedNums(S) == LET RECURSIVE R(_)
                      R(T) == IF T = {} THEN <<>> ELSE <<SetMin(T)>> \o R(T \ {SetMin(T)})
@@ -419,22 +422,29 @@ CommitStart(fl) ==
   /\ up /\ Idle /\ txs[W].st = "open"
   /\ fl \in FlushModes
   /\ txs' = [txs EXCEPT ![W].st = "commit"]
-  /\ cm' = [NoCm EXCEPT !.ph = "del", !.i = 1, !.fl = fl, !.old = [f |-> wc.f, o |-> wc.o]]
+  \* with PruneLast a transaction that prunes is always flushed (dbCache.needsFlush)
+  /\ cm' = [NoCm EXCEPT !.ph = IF PruneLast THEN "blk" ELSE "del", !.i = 1,
+                         !.fl = fl \/ (PruneLast /\ Len(txs[W].pd) > 0),
+                         !.old = [f |-> wc.f, o |-> wc.o]]
   /\ last' = [a |-> "CommitStart", fl |-> fl]
   /\ UNCHANGED <<ldb, ck, cr, files, wc, model, recov, up, everPruned, cnt>>
 
-\* 1. delete the files scheduled by pruning.
+\* 1. (original order) / 5. (PruneLast) delete the files scheduled by pruning.
+\* Original order: before anything else, a failure ends the commit with an
+\* error.  PruneLast: after the transaction is durable in leveldb; a file that
+\* cannot be deleted is only logged (the transaction is committed).
 StepDel ==
   /\ cm.ph = "del"
   /\ LET t == txs[W] IN
      IF cm.i > Len(t.pd)
-     THEN /\ CStep([cm EXCEPT !.ph = "blk", !.i = 1], Internal("del-done"))
+     THEN /\ CStep(IF PruneLast THEN [cm EXCEPT !.ph = "end"] ELSE [cm EXCEPT !.ph = "blk", !.i = 1],
+                   Internal("del-done"))
           /\ UNCHANGED <<ldb, ck, cr, files, wc, txs, everPruned>>
      ELSE \E res \in Fails :
           LET f == t.pd[cm.i] ok == res = "ok" /\ f \in DOMAIN files IN
           /\ files' = IF ok THEN Without(files, {f}) ELSE files
           /\ everPruned' = IF ok THEN everPruned \cup {f} ELSE everPruned
-          /\ CStep(IF ok THEN [Faulted(res) EXCEPT !.i = @ + 1]
+          /\ CStep(IF ok \/ PruneLast THEN [Faulted(res) EXCEPT !.i = @ + 1]
                    ELSE [Faulted(res) EXCEPT !.ph = "end", !.err = TRUE],
                    Io("delete", f, IF ok THEN "ok" ELSE "fail"))
           /\ UNCHANGED <<ldb, ck, cr, wc, txs>>
@@ -625,7 +635,9 @@ StepTldb ==
   /\ cm.ph = "tldb"
   /\ \E res \in Fails :
      /\ ldb' = IF res = "ok" THEN Overlay(ldb, txs[W].pk, txs[W].pr) ELSE ldb
-     /\ CStep(IF res = "ok" THEN [cm EXCEPT !.ph = "end"]
+     /\ CStep(IF res = "ok"
+              THEN IF PruneLast /\ Len(txs[W].pd) > 0 THEN [cm EXCEPT !.ph = "del", !.i = 1]
+                   ELSE [cm EXCEPT !.ph = "end"]
               ELSE [Faulted(res) EXCEPT !.ph = "end", !.err = TRUE],
               Io("ldbcommit", 0, res))
      /\ UNCHANGED <<ck, cr, files, wc, txs, everPruned>>
@@ -738,20 +750,26 @@ Spec == Init /\ [][Next]_vars
 \* A view (raw map E over the current files) shows exactly model m, and every
 \* block it lists is readable -- except blocks whose file was deleted by
 \* pruning (known defect, kept visible in `obs.io').
-Shows(E, pend, m) ==
+Shows(E, pend, m, exc) ==
   /\ AbsKV(E) = m.kv
   /\ AbsBlk(E) \cup pend = m.blk
-  /\ Unreadable(E, files) \ pend \subseteq Excused(E, files)
+  /\ Unreadable(E, files) \ pend \subseteq exc
+
+\* With the original commit order the committed / durable state itself can
+\* hold such rows (failed commit, crash); with PruneLast only the snapshot of
+\* a transaction that was open across a pruning commit can.
+ExcusedCommitted(E, F) == IF PruneLast THEN {} ELSE Excused(E, F)
 
 \* Atomicity: between transactions the store shows the committed model; a
 \* failed or rolled-back transaction leaves it unchanged, a successful one
 \* replaces it by the transaction's model (CommitEnd).
-Atomicity == (up /\ Idle) => Shows(Eff, {}, model)
+Atomicity == (up /\ Idle) => Shows(Eff, {}, model, ExcusedCommitted(Eff, files))
 
 \* Isolation / read-your-writes: every open transaction sees the model at its
 \* Begin transformed by its own operations only.
 Isolation ==
-  \A h \in Handles : txs[h].st = "open" => Shows(TxEff(txs[h]), PendBlocks(txs[h]), txs[h].m)
+  \A h \in Handles : txs[h].st = "open" =>
+     Shows(TxEff(txs[h]), PendBlocks(txs[h]), txs[h].m, Excused(TxEff(txs[h]), files))
 
 \* Prefix durability, evaluated in every state: if the process stopped here,
 \* Open would succeed and show one of the allowed models.
@@ -761,7 +779,7 @@ DurableNow ==
       allowed == recov \cup (IF cm.ph # "none" THEN {txs[W].m} ELSE {}) IN
   /\ r.ok
   /\ Abs(ldb) \in allowed
-  /\ Unreadable(ldb, r.files) \subseteq Excused(ldb, r.files)
+  /\ Unreadable(ldb, r.files) \subseteq ExcusedCommitted(ldb, r.files)
 PrefixDurability == up => DurableNow
 
 ReopenOK == (last.a \in {"Reopen", "Restart"}) => up
